@@ -186,6 +186,11 @@ def h11_parse_responses(data: bytes, eof: bool, request_methods: Optional[List[b
                 # response done, connection wants the next cycle
                 if conn.their_state is h11.MIGHT_SWITCH_PROTOCOL or conn.their_state is h11.SWITCHED_PROTOCOL:
                     out['trailing'], _ = conn.trailing_data
+                    if cur is not None:
+                        # 2xx to CONNECT / 101: the response ends with its header block
+                        cur['complete'] = True
+                        cur['switched'] = True
+                        cur = None
                     break
                 if conn.our_state is h11.DONE and conn.their_state is h11.DONE:
                     conn.start_next_cycle()
